@@ -764,6 +764,45 @@ theorem table_roundtrip (ok K z d : ℝ) (xs ys : List ℝ)
     rw [mul_div_cancel₀ _ hs.ne', Real.sin_arcsin (abs_le.1 hx).1 (abs_le.1 hx).2]
     field_simp
 
+/-- closed branch of the tabulated mode, source NEARER than the equator (√K·χ ≤ π/2): the comoving distance recovered
+    from the tabulated angular-diameter distance is the true one — so distances BETWEEN two redshifts are right too -/
+theorem table_comoving_before_equator (ok K z χ : ℝ) (hok : (1.0e-6 : ℝ) ≤ |ok|) (hK : 0 < K) (hz : 0 ≤ z)
+    (h0 : 0 ≤ χ) (hχ : Real.sqrt K * χ ≤ Real.pi / 2) :
+    comFromAng ok K z (1 / Real.sqrt K * Real.sin (Real.sqrt K * χ) / (1 + z)) = χ := by
+  have hs : 0 < Real.sqrt K := Real.sqrt_pos.2 hK
+  have h1z : (1 + z) ≠ 0 := by linarith
+  simp only [comFromAng, absv_eq_abs, lit_zero, lit_one, Trans.sqrt, Trig.asin]
+  rw [if_neg (not_lt.2 hok), if_neg (not_lt.2 hK.le)]
+  have harg : 1 / Real.sqrt K * Real.sin (Real.sqrt K * χ) / (1 + z) * (1 + z) * Real.sqrt K
+      = Real.sin (Real.sqrt K * χ) := by field_simp
+  rw [harg, Real.arcsin_sin (by have := mul_nonneg hs.le h0; linarith [Real.pi_pos]) hχ]
+  field_simp
+
+/-- **known finding F20, stated on the model**: beyond the equator (π/2 ≤ √K·χ ≤ 3π/2) the principal branch of arcsin
+    returns the MIRROR point (π − √K·χ)/√K — the table of D_A is reproduced (`ofTable_dA_node`), the comoving distance and
+    with it every distance between two redshifts is not -/
+theorem table_comoving_beyond_equator (ok K z χ : ℝ) (hok : (1.0e-6 : ℝ) ≤ |ok|) (hK : 0 < K) (hz : 0 ≤ z)
+    (h1 : Real.pi / 2 ≤ Real.sqrt K * χ) (h2 : Real.sqrt K * χ ≤ 3 * Real.pi / 2) :
+    comFromAng ok K z (1 / Real.sqrt K * Real.sin (Real.sqrt K * χ) / (1 + z))
+      = (Real.pi - Real.sqrt K * χ) / Real.sqrt K := by
+  have hs : 0 < Real.sqrt K := Real.sqrt_pos.2 hK
+  have h1z : (1 + z) ≠ 0 := by linarith
+  simp only [comFromAng, absv_eq_abs, lit_zero, lit_one, Trans.sqrt, Trig.asin]
+  rw [if_neg (not_lt.2 hok), if_neg (not_lt.2 hK.le)]
+  have harg : 1 / Real.sqrt K * Real.sin (Real.sqrt K * χ) / (1 + z) * (1 + z) * Real.sqrt K
+      = Real.sin (Real.pi - Real.sqrt K * χ) := by rw [Real.sin_pi_sub]; field_simp
+  rw [harg, Real.arcsin_sin (by linarith) (by linarith)]
+
+/-- … which differs from the true comoving distance as soon as the source is strictly beyond the equator -/
+theorem table_comoving_beyond_equator_ne (ok K z χ : ℝ) (hok : (1.0e-6 : ℝ) ≤ |ok|) (hK : 0 < K) (hz : 0 ≤ z)
+    (h1 : Real.pi / 2 < Real.sqrt K * χ) (h2 : Real.sqrt K * χ ≤ 3 * Real.pi / 2) :
+    comFromAng ok K z (1 / Real.sqrt K * Real.sin (Real.sqrt K * χ) / (1 + z)) ≠ χ := by
+  have hs : 0 < Real.sqrt K := Real.sqrt_pos.2 hK
+  rw [table_comoving_beyond_equator ok K z χ hok hK hz h1.le h2]
+  intro h
+  rw [div_eq_iff hs.ne'] at h
+  nlinarith [Real.pi_pos]
+
 /-- **user-tabulated distances are reproduced at the tabulated redshifts** (all three curvature
     branches of `CosmoInterp`, with or without a leading z = 0 entry): if the user tabulates any
     function `D` (with `D 0 = 0`) at strictly increasing redshifts, the object built by
